@@ -36,6 +36,27 @@ def plan(seed):
     return {"seed": seed, "n": n, "store": store, "events": ev, "control": control, "call": call, "events2": ev2, "control2": ctl2}
 
 
+def plan_populated(seed, n):
+    """A root that has a path of its own (data function), evaluated in full, re-evaluated in full after a variable changed, and -
+    the variable set back - evaluated under a stage list that stops before path commit: the root's blob of the first run is in
+    the store, so nothing runs, and the committed paths (now those of the second run) must stay where they are."""
+    for k in range(400):
+        pl = plan(seed * 7 + k)
+        root = P.find_func(pl["events"][0][1], *pl["events"][0][1]["root"])
+        if root.get("annot") and pl["events2"]:
+            break
+    else:
+        return None
+    prog = pl["events"][0][1]
+    call = pl["call"]
+    restricted = dict(call, n_stages=n)
+    sv, sv_back = pl["events2"][2], pl["events2"][4]
+    pl = dict(pl, n=n, populated_root=True)
+    pl["events2"] = [("prog", prog), ("act", call), sv, ("act", call), sv_back, ("act", restricted), ("act", call)]
+    pl["control2"] = [("prog", prog), ("act", call), sv, ("act", call), sv_back, ("act", call)]
+    return pl
+
+
 def run_one(job):
     try:
         r2 = None
@@ -51,6 +72,11 @@ def run_one(job):
 def run(rep, tier, seed, proof_ok, rng):
     n = 12 if tier == "quick" and proof_ok else 100
     plans = [plan(seed * 1000 + i) for i in range(n)]
+    # restricted runs that find the root's own blob in the store (deterministically present in every run of the check)
+    for j, ns in enumerate((3, 4) if tier == "quick" and proof_ok else (3, 4, 3, 4, 2, 1)):
+        pp = plan_populated(seed * 1000 + 500 + j, ns)
+        if pp:
+            plans.append(pp)
     with cf.ThreadPoolExecutor(max_workers=C.NPROC) as ex:
         results = list(ex.map(run_one, plans))
     dist = {}
@@ -67,6 +93,10 @@ def run(rep, tier, seed, proof_ok, rng):
             rep.case(f"prog:{pl['seed']}:{pl['n']}:{pl['store']}:state-change-after-restricted")
             replay2 = {"events": pl["events2"], "n_stages": pl["n"], "store": pl["store"]}
             for i, r in enumerate(recs2):
+                if pl.get("populated_root") and r["act"].get("n_stages") is not None and [x for x in r["impl"]["rec"] if x[0] == "sync"] \
+                        and r["act"]["n_stages"] < 5:
+                    rep.violation("dry-run-impure:path-commit:root-served-from-the-store", f"stages {hist.STAGE_NAMES[:r['act']['n_stages']]} on a store that "
+                                  f"holds the root's blob: paths were committed", dict(replay2, action=i))
                 d = hist.compare(r)
                 if d:
                     rep.violation("model-mismatch:" + d[0][0], f"restricted run, state change, full run: implementation and model disagree at action {i}: "
